@@ -126,9 +126,22 @@ func opCoq(o Op) string {
 	}
 }
 
+// startRound: mostly small rounds; a third of the histories start a few rounds
+// below a byte-width boundary of the round number (255/256, 65535/65536, ...),
+// so that advancing the round crosses it: the persisted position is
+// round.Bytes() || index, a variable-length encoding.
+func startRound(r *vf.Rng, small int) uint64 {
+	if r.Chance(33) {
+		bases := []uint64{1 << 8, 1 << 16, 1 << 24, 1 << 32, 1 << 40, 1 << 56}
+		b := bases[r.Intn(len(bases))]
+		return b - uint64(1+r.Intn(3))
+	}
+	return uint64(1 + r.Intn(small))
+}
+
 func genHistory(r *vf.Rng) History {
 	n := 3 + r.Heavy(160)
-	round := uint64(1 + r.Intn(50))
+	round := startRound(r, 50)
 	idx := uint32(1)
 	var ops []Op
 	ctxR, ctxI := round, idx
@@ -402,7 +415,7 @@ func runVoter(ops []VOp) (sent []emission, hashes []common.Hash, puts []emission
 
 func genVoterHistory(r *vf.Rng) []VOp {
 	n := 4 + r.Heavy(60)
-	round, idx := uint64(1+r.Intn(30)), uint32(1)
+	round, idx := startRound(r, 30), uint32(1)
 	cert := r.Chance(30)
 	var ops []VOp
 	steps := []uint32{ucon.UConStepProposal, ucon.UConStepPrevote, ucon.UConStepPrecommit, ucon.UConStepCertificate}
